@@ -406,55 +406,69 @@ def chunkLoop {σ} (u : RecvUser σ) (a : Nat) : List RDg → Nat → σ → Lis
       chunkLoop u a ds (k + 1) (u.cb s args) (evs ++ [.cb args])
     else (s, evs)
 
-/-- uv__udp_recvmmsg (154-221): returns nread (-1 on error) -/
-def recvmmsg {σ} (u : RecvUser σ) (a len : Nat) (s : σ) (q : List RItem) : σ × List RItem × List REv × Int :=
-  let chunks := min (len / DGRAM_MAX) 20
-  let buf : BufRef := ⟨a, 0, len⟩
-  match kRecvmmsg chunks q with
+structure MRes (σ : Type) where
+  s : σ
+  q : List RItem
+  evs : List REv
+  nread : Int
+
+/-- uv__udp_recvmmsg (154-221) after the recvmmsg call: returns nread (-1 on error) -/
+def recvmmsgK {σ} (u : RecvUser σ) (a len : Nat) (s : σ) : KRecv × List RItem → MRes σ
   | (.err e, q') =>
-    let args : CbArgs := ⟨if e = EAGAIN then 0 else -(e : Int), some buf, 0, 0⟩
-    (u.cb s args, q', [.cb args], -1)
+    let args : CbArgs := ⟨if e = EAGAIN then 0 else -(e : Int), some ⟨a, 0, len⟩, 0, 0⟩
+    ⟨u.cb s args, q', [.cb args], -1⟩
   | (.ok [], q') =>
-    let args : CbArgs := ⟨0, some buf, 0, 0⟩
-    (u.cb s args, q', [.cb args], 0)
-  | (.ok ds, q') =>
-    let (s, evs) := chunkLoop u a ds 0 s []
-    if u.recvSet s then
-      let args : CbArgs := ⟨0, some buf, 0, FLAG_FREE⟩
-      (u.cb s args, q', evs ++ [.cb args], ds.length)
-    else (s, q', evs, ds.length)
+    let args : CbArgs := ⟨0, some ⟨a, 0, len⟩, 0, 0⟩
+    ⟨u.cb s args, q', [.cb args], 0⟩
+  | (.ok (d :: ds), q') =>
+    let cl := chunkLoop u a (d :: ds) 0 s []
+    if u.recvSet cl.1 then
+      let args : CbArgs := ⟨0, some ⟨a, 0, len⟩, 0, FLAG_FREE⟩
+      ⟨u.cb cl.1 args, q', cl.2 ++ [.cb args], (d :: ds).length⟩
+    else ⟨cl.1, q', cl.2, (d :: ds).length⟩
+
+/-- uv__udp_recvmmsg (154-221): `chunks = buf->len / UV__UDP_DGRAM_MAXSIZE`, capped at 20 -/
+def recvmmsg {σ} (u : RecvUser σ) (a len : Nat) (s : σ) (q : List RItem) : MRes σ :=
+  recvmmsgK u a len s (kRecvmmsg (min (len / DGRAM_MAX) 20) q)
+
+def KRecv.isErr : KRecv → Bool
+  | .err _ => true
+  | .ok _ => false
+
+/-- arguments of the recv_cb call after a plain recvmsg (270-282) -/
+def plainArgs (buf : BufRef) : KRecv → CbArgs
+  | .err e => ⟨if e = EAGAIN then 0 else -(e : Int), some buf, 0, 0⟩
+  | .ok ds =>
+    let d := ds.headD ⟨0, false, 0⟩
+    ⟨min d.len buf.len, some buf, d.peer, if d.trunc then FLAG_PARTIAL else 0⟩
+
+/-- `if (nread > 0) count -= nread;` (253-254) -/
+def mmsgCount (count nread : Int) : Int := if nread > 0 then count - nread else count
 
 /-- the do/while of uv__udp_recvmsg (237-289); `a` = number of alloc_cb calls so far in this invocation;
-fuel bounds the iterations (32 suffice) -/
+fuel bounds the iterations (32 suffice, `recv_progress`) -/
 def recvLoop {σ} (u : RecvUser σ) : Nat → Nat → Int → σ → List RItem → List REv → RRes σ
   | 0, _, _, s, q, evs => ⟨s, q, evs, true⟩
   | f + 1, a, count, s, q, evs =>
-    let (s, len) := u.alloc s
-    let evs := evs ++ [.alloc len]
-    if len = 0 then
+    let al := u.alloc s
+    let evs := evs ++ [.alloc al.2]
+    if al.2 = 0 then
       let args : CbArgs := ⟨UV_ENOBUFS, none, 0, 0⟩
-      ⟨u.cb s args, q, evs ++ [.cb args], false⟩
+      ⟨u.cb al.1 args, q, evs ++ [.cb args], false⟩
+    else if u.mmsg al.1 ∧ al.2 ≥ DGRAM_MAX then
+      let m := recvmmsg u a al.2 al.1 q
+      let count := mmsgCount count m.nread
+      if m.nread ≠ -1 ∧ count > 0 ∧ u.fdOpen m.s ∧ u.recvSet m.s then
+        recvLoop u f (a + 1) count m.s m.q (evs ++ m.evs)
+      else ⟨m.s, m.q, evs ++ m.evs, false⟩
     else
-    if u.mmsg s ∧ len ≥ DGRAM_MAX then
-      let (s, q, e2, nread) := recvmmsg u a len s q
-      let count := if nread > 0 then count - nread else count
-      let evs := evs ++ e2
-      if nread ≠ -1 ∧ count > 0 ∧ u.fdOpen s ∧ u.recvSet s then recvLoop u f (a + 1) count s q evs
-      else ⟨s, q, evs, false⟩
-    else
-      let buf : BufRef := ⟨a, 0, len⟩
-      match kRecvmsg q with
-      | (.err e, q) =>
-        let args : CbArgs := ⟨if e = EAGAIN then 0 else -(e : Int), some buf, 0, 0⟩
-        ⟨u.cb s args, q, evs ++ [.cb args], false⟩          -- nread == -1 leaves the loop
-      | (.ok ds, q) =>
-        let d := ds.headD ⟨0, false, 0⟩
-        let args : CbArgs := ⟨min d.len len, some buf, d.peer, if d.trunc then FLAG_PARTIAL else 0⟩
-        let s := u.cb s args
-        let count := count - 1
-        let evs := evs ++ [.cb args]
-        if count > 0 ∧ u.fdOpen s ∧ u.recvSet s then recvLoop u f (a + 1) count s q evs
-        else ⟨s, q, evs, false⟩
+      let kr := kRecvmsg q
+      let args := plainArgs ⟨a, 0, al.2⟩ kr.1
+      let s := u.cb al.1 args
+      if kr.1.isErr then ⟨s, kr.2, evs ++ [.cb args], false⟩        -- nread == -1 leaves the loop
+      else if count - 1 > 0 ∧ u.fdOpen s ∧ u.recvSet s then
+        recvLoop u f (a + 1) (count - 1) s kr.2 (evs ++ [.cb args])
+      else ⟨s, kr.2, evs ++ [.cb args], false⟩
 
 /-- uv__udp_recvmsg (223-290) -/
 def recvmsg {σ} (u : RecvUser σ) (s : σ) (q : List RItem) : RRes σ :=
